@@ -168,7 +168,22 @@ def base_meta(loom, pid, tid, app_id=1, require=None, cpus=None, rank=None,
     return meta
 
 
-def write_trace(root, streams, order=None, extra_files=None):
+FOREIGN_META = {"version": 3, "ovni": {"part": "monitor", "finished": 1}}
+
+
+def foreign_paths(rng, streams):
+    """Relative paths for 1-2 event-less streams that belong to no thread
+    (ovni.part other than "thread": tolerated with a warning), placed so that
+    they sort before, between and after the thread streams."""
+    rels = sorted(s.relpath for s in streams)
+    cands = ["aux.0", "loom.0-monitor", "zz.monitor", rels[0].rsplit("/", 1)[0] + "/monitor.0",
+             rels[-1].rsplit("/", 1)[0] + "/thread.0.mon", rels[0].split("/")[0] + "/monitor",
+             rels[len(rels) // 2] + ".aux", "loom." + chr(1 + max(ord(r[5]) for r in rels) % 126) + "mon/proc.0/thread.0"]
+    cands = [c for c in dict.fromkeys(cands) if c not in rels]
+    return rng.sample(cands, min(len(cands), rng.randint(1, 2)))
+
+
+def write_trace(root, streams, order=None, extra_files=None, foreign=None):
     """Materialise streams under root.  `order` is a list of indexes into
     streams giving the creation order (tmpfs lists directories in reverse
     creation order, so this decides the nftw order).  Within a stream dir the
@@ -176,6 +191,12 @@ def write_trace(root, streams, order=None, extra_files=None):
     obs first)."""
     os.makedirs(root, exist_ok=True)
     idx = list(range(len(streams))) if order is None else list(order)
+    later = []
+    for k, rel in enumerate(foreign or ()):
+        if (len(idx) + k) % 2:
+            later.append(rel)
+            continue
+        _write_foreign(root, rel)
     for i in idx:
         s = streams[i]
         d = os.path.join(root, s.relpath)
@@ -186,9 +207,20 @@ def write_trace(root, streams, order=None, extra_files=None):
         if jb is not None:
             with open(os.path.join(d, "stream.json"), "wb") as f:
                 f.write(jb)
+    for rel in later:
+        _write_foreign(root, rel)
     for name, data in (extra_files or {}).items():
         with open(os.path.join(root, name), "wb") as f:
             f.write(data)
+
+
+def _write_foreign(root, rel):
+    d = os.path.join(root, rel)
+    os.makedirs(d, exist_ok=True)
+    with open(os.path.join(d, "stream.obs"), "wb") as f:
+        f.write(HEADER)
+    with open(os.path.join(d, "stream.json"), "wb") as f:
+        f.write(json.dumps(FOREIGN_META, indent=1).encode())
 
 
 def observed_order(root):
